@@ -105,6 +105,13 @@ CHECKS.update({
         "as C12; the stop arrives through stop_all() from the main thread", "DESIGN.md 4/C14"),
 })
 
+CHECKS.update({
+    "C15": ("exploration",
+        "differential: cmdline.main(argv) run in-process over generated option vectors and recordings vs split() rendered by an independent formatter; formatter checked against exact-rational millisecond arithmetic",
+        "Generated option vectors (each option independently present or left to its documented default) x recordings as wav/raw/extension-less/stdin; stdout, exit status and the -o/-O/-j files compared with what split() yields; 6000+ formatter cases with boundary bias. Thorough adds real subprocess runs.",
+        "no pyaudio/pydub/ffmpeg/sox in the sandbox: -E -C -p -I -F and other formats not covered; -a chosen so that a*rate is integral", "DESIGN.md 4/C15"),
+})
+
 NOT_YET = "check not built yet in this round (planned in DESIGN.md section 10)"
 
 
